@@ -16,8 +16,20 @@ a = ap.parse_args()
 
 VERIF = os.path.dirname(os.path.dirname(os.path.abspath(__file__)))
 # properties whose statement covers concurrent use: a data race in forwarder code under
-# their workload is a violation; elsewhere it is recorded as an observation.
+# their workload is a violation. For the others a race is a violation when one of the two racing
+# accesses was made from the code the property is anchored in (a frame of either access stack lies
+# in one of the property's anchor files): the data the property speaks about was then handled
+# without synchronisation in an execution the workload produced. Any other race in forwarder code
+# is recorded as an observation.
 RACE_DECISIVE = {'C07', 'C08', 'C09', 'C10', 'C11', 'C13', 'C14'}
+REPO = os.environ.get('VERIF_REPO', '/repo').rstrip('/') + '/'
+
+def anchor_files(pid):
+    for ln in open(os.path.join(VERIF, 'properties.jsonl')):
+        p = json.loads(ln)
+        if p['id'] == pid:
+            return set(p['anchors']['files'])
+    return set()
 LEVEL = {'C08': 'fault_enumeration', 'C11': 'fault_enumeration', 'C12': 'fault_enumeration', 'C15': 'fault_enumeration'}
 
 def load_known():
@@ -40,6 +52,7 @@ def read_log_tail(n=60):
     except OSError:
         return []
 
+ANCHORS = set()
 FWD = 'github.com/saucelabs/forwarder/'
 HARNESS = 'github.com/saucelabs/forwarder/verifharness'
 
@@ -52,33 +65,50 @@ def parse_race_reports():
                 continue
             # stacks are separated by blank lines; take function names
             stacks = []
+            files = []  # per stack: source files (relative to the repository) of its frames
             cur = []
+            curf = set()
             for ln in block.splitlines():
                 s = ln.strip()
                 if not s:
                     if cur:
-                        stacks.append(cur); cur = []
+                        stacks.append(cur); files.append(curf); cur = []; curf = set()
                     continue
                 if s.startswith(('Read at', 'Write at', 'Previous read', 'Previous write', 'Goroutine', 'WARNING', 'Atomic', 'Previous atomic')):
                     if cur:
-                        stacks.append(cur)
-                    cur = [s]
+                        stacks.append(cur); files.append(curf)
+                    cur = [s]; curf = set()
                     continue
                 if s.startswith('/') or s.startswith('_'):  # file:line
+                    f = s.split(' ')[0].rsplit(':', 1)[0]
+                    if f.startswith(REPO):
+                        curf.add(f[len(REPO):])
                     continue
                 cur.append(re.sub(r'\(\)$', '', s))
             if cur:
-                stacks.append(cur)
-            access = [st for st in stacks if st and st[0].startswith(('Read at', 'Write at', 'Previous read', 'Previous write', 'Atomic', 'Previous atomic'))][:2]
+                stacks.append(cur); files.append(curf)
+            is_access = lambda st: st and st[0].startswith(('Read at', 'Write at', 'Previous read', 'Previous write', 'Atomic', 'Previous atomic'))
+            access_files = set()
+            seen_access = 0
+            for st, fs in zip(stacks, files):
+                if is_access(st):
+                    seen_access += 1
+                    if seen_access <= 2:
+                        access_files |= fs
+            access = [st for st in stacks if is_access(st)][:2]
+            def is_fwd(f):
+                # the root package's functions are "github.com/saucelabs/forwarder.Name"
+                return (f.startswith(FWD) or f.startswith(FWD[:-1] + '.')) and not f.startswith(HARNESS)
             def outer_fwd(st):
-                fr = [f for f in st[1:] if f.startswith(FWD) and not f.startswith(HARNESS)]
+                fr = [f for f in st[1:] if is_fwd(f)]
                 return fr[-1] if fr else None
             def inner_fwd(st):
-                fr = [f for f in st[1:] if f.startswith(FWD) and not f.startswith(HARNESS)]
+                fr = [f for f in st[1:] if is_fwd(f)]
                 return fr[0] if fr else None
             keys = sorted(str(inner_fwd(st)) for st in access)
             touches = any(outer_fwd(st) for st in access)
-            reports.append({'key': 'race:' + '|'.join(k.replace(FWD, '') for k in keys), 'forwarder': touches, 'text': block.strip()[:4000]})
+            reports.append({'key': 'race:' + '|'.join(k.replace(FWD, '').replace(FWD[:-1] + '.', 'forwarder.') for k in keys), 'forwarder': touches, 'text': block.strip()[:4000],
+                            'anchored': sorted(access_files & ANCHORS)})
     return reports
 
 def main():
@@ -140,6 +170,8 @@ def main():
             if got < need and verdict.get('only_case', -1) < 0:
                 broken.append('floor not reached: %s observed %d < required %d' % (name, got, need))
 
+    global ANCHORS
+    ANCHORS = anchor_files(a.id)
     races = parse_race_reports()
     race_obs = []
     seen = set()
@@ -152,6 +184,8 @@ def main():
             continue
         if a.id in RACE_DECISIVE:
             violations.append((r['key'], 'data race in forwarder code under this property\'s concurrent workload', -1, {'report': r['text']}))
+        elif r['anchored']:
+            violations.append((r['key'], 'data race in forwarder code reached from the code this property is anchored in (%s)' % ', '.join(r['anchored'][:4]), -1, {'report': r['text'], 'anchor_files_on_the_racing_stacks': r['anchored']}))
         else:
             race_obs.append(r['key'])
             print('OBSERVATION property=%s data race outside this property\'s statement: %s' % (a.id, r['key']))
